@@ -18,6 +18,14 @@
 varintWidth varintTaggedGetVarint32(const uint8_t *z, uint32_t *pResult);
 varintWidth varintTaggedPutVarint32(uint8_t *p, uint32_t v);
 
+/* Macro hygiene: the second invocation (the `pb` copy) of every statement macro passes its value and pointer
+ * arguments as UNPARENTHESISED conditional expressions - the operator of lowest precedence an argument can
+ * have - so a macro that uses a parameter without parentheses computes something else for the second copy
+ * and the two-fill comparison (CHECK_EXTENT) or the decode monitors report it. vh_one is 1 at run time. */
+extern volatile int vh_one;
+#define HY(x) vh_one ? (x) : 0
+#define HYP(p) vh_one ? (p) : (p)
+
 #define GUARD 24
 #define BUFSZ (GUARD + 8 + 16 + GUARD)
 
@@ -131,7 +139,7 @@ static void op_tagged_fixed(const VhLine *l) {
     int n = (int)varintTaggedPut64FixedWidth(w.pa, v, (varintWidth)width);
     varintTaggedPut64FixedWidth(w.pb, v, (varintWidth)width);
     varintTaggedPut64FixedWidthQuick_(q.pa, v, width);
-    varintTaggedPut64FixedWidthQuick_(q.pb, v, width);
+    varintTaggedPut64FixedWidthQuick_(HYP(q.pb), HY(v), HY(width));
     out("n=%d", n);
     out_hex("b", w.pa, (size_t)n);
     out_hex("qb", q.pa, (size_t)n);
@@ -308,14 +316,14 @@ static void op_ext_fixed(const VhLine *l) {
         varintExternalBigEndianPutFixedWidth(w.pa, v, (varintWidth)width);
         varintExternalBigEndianPutFixedWidth(w.pb, v, (varintWidth)width);
         varintExternalBigEndianPutFixedWidthQuick_(q.pa, v, width);
-        varintExternalBigEndianPutFixedWidthQuick_(q.pb, v, width);
+        varintExternalBigEndianPutFixedWidthQuick_(HYP(q.pb), HY(v), HY(width));
     } else {
         varintExternalPutFixedWidth(w.pa, v, (varintWidth)width);
         varintExternalPutFixedWidth(w.pb, v, (varintWidth)width);
         varintExternalPutFixedWidthQuick_(q.pa, v, width);
-        varintExternalPutFixedWidthQuick_(q.pb, v, width);
+        varintExternalPutFixedWidthQuick_(HYP(q.pb), HY(v), HY(width));
         varintExternalPutFixedWidthQuickMedium_(m.pa, v, width);
-        varintExternalPutFixedWidthQuickMedium_(m.pb, v, width);
+        varintExternalPutFixedWidthQuickMedium_(HYP(m.pb), HY(v), HY(width));
     }
     CHECK_EXTENT("C01", &w, 0, width, fam);
     CHECK_EXTENT("C01", &q, 0, width, fam);
@@ -578,7 +586,7 @@ static void op_csimple_dec(const VhLine *l) {
         win_init(&w);                                                                              \
         int n = 0, n2 = 0;                                                                         \
         PFX##Put_(w.pa, n, v);                                                                     \
-        PFX##Put_(w.pb, n2, v);                                                                    \
+        PFX##Put_(HYP(w.pb), n2, HY(v));                                                                    \
         CHECK_EXTENT("C01", &w, 0, n, FAM ".put");                                                 \
         uint8_t *e = exact_copy(w.pa, (size_t)n);                                                  \
         int pl = 0;                                                                                \
@@ -609,9 +617,9 @@ static void op_csimple_dec(const VhLine *l) {
         int rn = 0, rn2 = 0, fn = 0, fn2 = 0;                                                      \
         /* PutReversed_: dst is the LAST byte; place it so that the varint occupies [0, n) */      \
         RPFX##PutReversed_(r.pa + n - 1, rn, v);                                                   \
-        RPFX##PutReversed_(r.pb + n - 1, rn2, v);                                                  \
+        RPFX##PutReversed_(HYP(r.pb + n - 1), rn2, HY(v));                                                  \
         RPFX##PutForward_(f.pa, fn, v);                                                            \
-        RPFX##PutForward_(f.pb, fn2, v);                                                           \
+        RPFX##PutForward_(HYP(f.pb), fn2, HY(v));                                                           \
         CHECK_EXTENT("C01", &r, 0, rn, FAM ".putReversed");                                        \
         CHECK_EXTENT("C01", &f, 0, fn, FAM ".putReversedForward");                                 \
         uint8_t *re = exact_copy(r.pa, (size_t)rn);                                                \
@@ -689,6 +697,21 @@ static void op_tagged_cmp(const VhLine *l) {
     /* prefix-freeness: within the common length the encodings already differ unless equal */
     if (a != b && memcmp(ba, bb, (size_t)m) == 0) {
         mon("C05", "tagged(%" PRIx64 ") is a prefix of tagged(%" PRIx64 ")", la < lb ? a : b, la < lb ? b : a);
+    }
+    /* keys built with the public inline encoder (varintTaggedLenQuick + ...FixedWidthQuick_), its value passed
+     * as an expression (macro hygiene, see HY): they must be the same keys, so they sort the same way */
+    {
+        uint8_t qa[9], qb[9];
+        memset(qa, 0xA5, sizeof(qa));
+        memset(qb, 0xA5, sizeof(qb));
+        int wa = (int)varintTaggedLenQuick(a), wb = (int)varintTaggedLenQuick(b);
+        varintTaggedPut64FixedWidthQuick_(HYP(qa), HY(a), HY(wa));
+        varintTaggedPut64FixedWidthQuick_(HYP(qb), HY(b), HY(wb));
+        if (wa != la || wb != lb || memcmp(qa, ba, (size_t)la) != 0 || memcmp(qb, bb, (size_t)lb) != 0) {
+            mon("C05", "inline (quick-macro) tagged key of %" PRIx64 " or %" PRIx64
+                       " differs from varintTaggedPut64's bytes: such keys do not sort numerically",
+                a, b);
+        }
     }
 }
 /* tagged.cmpt k a1..ak b1..bk : composite keys */
